@@ -61,7 +61,7 @@ class KShim:
         e = self.fds.get(v)
         if e is None or e[2] != "open":
             kind = e[1] if e else "unknown"
-            if op in ("read", "write", "close", "poll"):
+            if op in ("read", "write", "close", "poll", "rm_watch"):  # (add_watch after close is met on the unchanged tree and harmless: probe only)
                 self.violations.append((op, kind, "after-close" if e else "unknown-fd"))
             return None
         return e[0]
